@@ -1,17 +1,48 @@
 (* C15 — canonicalisation picks one representative per symmetry class of games.
-   Only statements, `exact`, and Print Assumptions live here. *)
+   Only statements, `exact`, and Print Assumptions live here.
+   Proof files: CanonFacts.v (preferMove), Canon1-4.v (the loop of Canonical), on top of C14 (SymRules*.v, SymCode*.v) and C01. *)
 From Coq Require Import NArith ZArith List Bool.
-Require Import Board Move GameOver Tps Symmetry CanonFacts.
+Require Import Rules SymRules2.
+Require Import Board Move GameOver Tps Symmetry CanonFacts Refine Canon1 Canon2 Canon3 Canon4.
+Require Import Generated.Consts.
+Close Scope Z_scope. Close Scope N_scope.
 
 (* preferMove, the comparison Canonical minimises over the stabiliser of the current position, is a strict total
    order on moves that differ in (Y, X, Type): irreflexive, asymmetric, transitive, total - so the minimum over
-   an orbit (whose moves share their Slides) is unique.
-   C15_partial: canonical_legal_images, canonical_class_invariant and canonical_idempotent (DESIGN 5.15) are
-   still to be proved; they are decided by the correspondence + independent oracle (exhaustive on short games) for now. *)
-Theorem C15_prefer_move_strict_total_partial :
+   an orbit (whose moves share their Slides) is unique. *)
+Theorem C15_prefer_move_strict_total :
   (forall m, prefer_move m m = false) /\
   (forall l r, prefer_move l r = true -> prefer_move r l = false) /\
   (forall a b c, prefer_move a b = true -> prefer_move b c = true -> prefer_move a c = true) /\
   (forall l r, key l <> key r -> prefer_move l r = true \/ prefer_move r l = true).
 Proof. exact prefer_move_strict_total. Qed.
-Print Assumptions C15_prefer_move_strict_total_partial.
+Print Assumptions C15_prefer_move_strict_total.
+
+(* DESIGN 5.15 canonical_legal_images.  If Canonical (model of symmetry.Canonical with the real hash basis) returns cs for the input ms on an
+   sz x sz board, then cs has the length of ms and for EVERY k the first k moves of cs and the first k moves of ms are both legal games by
+   the rules of Rules.v from the start position P0 sz (= abs of the model's start position), the canonical one ending in the image
+   img j of the other for one of the eight symmetries j (images_at).  So the input game is legal too.
+   Hypotheses, all visible:
+   - canon_input m: coordinates within [-20,20] (every board square and every near miss; FULL statement: the whole int8 range, where the
+     code's flips wrap around: not proved), type code <= 8, a slide has at least one drop (TransformMove panics otherwise);
+   - trace_ok sz ms: for every state (eight boards) the loop reaches BEFORE a move,
+       (a) NoCollision: a board whose 64-bit hash equals that of board 0 - the comparison Canonical makes - shows the same position as board 0;
+       (b) every board satisfies c01_inv, the hypotheses under which C01 proves Position.Move correct (size 3..8, board_ok, reserves < 256,
+           no stack above 64 - size).  FULL statement: (b) derived from preservation of the invariant by Move (being proved under C01) and
+           kept only as the height limit of the bit representation.
+   Non-vacuity: Canon4.ex_trace_ok / ex_legal_images (5x5: e5, e4, e4 slides up; Canonical rotates by 180 degrees, then flips the diagonal). *)
+Theorem C15_canonical_legal_images_partial : forall sz, (3 <= sz <= 8)%N -> forall ms cs,
+  Forall canon_input ms -> trace_ok sz ms -> canonical gen_basis sz ms = Ok cs ->
+  length cs = length ms /\
+  forall k, k <= length ms ->
+    exists j A B, j < 8 /\ play (P0 sz) (map raw (firstn k cs)) = Some A /\ play (P0 sz) (map raw (firstn k ms)) = Some B /\ A = img j B.
+Proof. exact canonical_legal_images_partial. Qed.
+Print Assumptions C15_canonical_legal_images_partial.
+
+(* the hypotheses are satisfiable and the theorem applies: a concrete game *)
+Theorem C15_example_hypotheses_hold : Forall canon_input ex_ms /\ trace_ok 5 ex_ms /\ canonical gen_basis 5 ex_ms = Ok ex_cs.
+Proof. exact ex_hypotheses_hold. Qed.
+Print Assumptions C15_example_hypotheses_hold.
+
+(* canonical_class_invariant and canonical_idempotent (DESIGN 5.15) are not proved: they are decided by the correspondence and the
+   independent oracle (exhaustive on short games). *)
